@@ -126,7 +126,7 @@ class WSession:
         return {"meta": m, "ev": self.events}
 
 
-TEXTS = ["G1 X1", "G0 Z5 ", "M3 S100", "T1 M6", "G1 X1 Y2 ; café", "über 中文", "note ", "G4 P1"]
+TEXTS = ["G1 X1", "G0 Z5 ", "M3 S100", "T1 M6", "G1 X1 Y2 ; café", "über 中文", "note ", "G4 P1", "", "  "]   # also: an empty statement (a blank separator line)
 
 
 def run_descs(descs, kinds, eol="\n", meta=None):
